@@ -1,82 +1,151 @@
-(** Correspondence check for C11. *)
+(** Correspondence check for C11.
+    [same] = the implementation's observables equal the model's (exact: last loaded among
+    equal names, fewest stars, partial results of a failed load, the loop's trace);
+    [spec] = what the property demands of the implementation's observables and no more
+    ([presents_b], proved sound for [presents] in Properties/C11.v: C11_check_spec_sound;
+    the set a handshake must be answered from is computed by [last_good] / the abstract
+    machine, never by the model of the loop or of the index). *)
 From Coq Require Import String List NArith Bool.
 From Fabio Require Import Lib.Outcome Lib.Bytes Lib.Verdict Model.CertStore Proofs.CertStore.
 Import ListNotations.
 Local Open Scope N_scope.
 
-Definition pick_eqb (a b : pick) : bool :=
+(* the property's demand on one answer, given the set the handshake must be answered from *)
+Definition pick_ok (certs : certset) (sn : str) (strict : bool) (impl : pick) : bool :=
+  match certs with
+  | [] => pick_eqb impl PErrNoCerts
+  | [_] => if strict then presents_b certs sn strict impl else pick_eqb impl (PCert 0)
+  | _ => presents_b certs sn strict impl
+  end.
+Fixpoint all2 {A B} (f : A -> B -> bool) (a : list A) (b : list B) : bool :=
   match a, b with
-  | PCert i, PCert j => Nat.eqb i j
-  | PNone, PNone => true
-  | PErrNoCerts, PErrNoCerts => true
+  | [], [] => true
+  | x :: a', y :: b' => f x y && all2 f a' b'
   | _, _ => false
   end.
 
-(* the property's reading of "name": DNS names compare case-insensitively; brute-force
-   reference that scans the set directly (no index), folding the certificate names too *)
-Definition ref_pick (certs : list cert) (sn : str) (strict : bool) : pick :=
-  match certs with
-  | [] => PErrNoCerts
-  | _ =>
-    let lc := map (map lower) certs in
-    let name := normalize sn in
-    match last_idx lc name with
-    | Some i => PCert i
-    | None =>
-        let labels := split_byte name 46 in
-        let fix scan (ks : list nat) : option nat :=
-          match ks with
-          | [] => None
-          | k :: r => match last_idx lc (candidate labels k) with Some i => Some i | None => scan r end
-          end in
-        match scan (seq 0 (length labels)) with
-        | Some i => PCert i
-        | None => if strict then PNone else PCert 0
-        end
-    end
-  end.
-
-Definition has_upper (s : str) : bool := existsb is_upper s.
-
+Definition certset_eqb : certset -> certset -> bool := list_eqb cert_eqb.
 Definition event_eqb (a b : event) : bool :=
   match a, b with
   | ELoad, ELoad => true | ESleep, ESleep => true
-  | EPublish x, EPublish y => x =? y
+  | EPublish x, EPublish y => certset_eqb x y
   | _, _ => false
   end.
+
+(* the sets the handshakes of a fine schedule must be answered from: the abstract machine
+   of Proofs/CertStore.v, reporting the set instead of the answer *)
+Fixpoint abs_sets (st : astate) (sched : list faction) : list (certset * str * bool) :=
+  match sched with
+  | [] => []
+  | a :: r =>
+      let '(cur, pend, snaps) := st in
+      match a with
+      | FPick t n s => match snap_get t snaps with
+                       | Some c => (c, n, s) :: abs_sets st r
+                       | None => abs_sets st r
+                       end
+      | _ => abs_sets (fst (abs_step st a)) r
+      end
+  end.
+
+(* loadCertificates, declaratively: an error iff some cert/key/combined file of the map has no
+   usable pair; otherwise exactly the usable pairs, in strictly ascending order of the
+   certificate file names (so the first certificate is the first by file name) *)
+Definition pair_of (m : blocks) (name : str) : option (str * option cert) :=
+  match classify name with Some (cf, kf) => Some (cf, key_pair m cf kf) | None => None end.
+Fixpoint ascending (l : list str) : bool :=
+  match l with
+  | a :: ((b :: _) as r) => str_ltb a b && ascending r
+  | _ => true
+  end.
+Definition load_spec (m : blocks) (impl : list (str * cert)) (err : bool) : bool :=
+  let names := map fst m in
+  let want_err := existsb (fun n => match pair_of m n with Some (_, None) => true | _ => false end) names in
+  Bool.eqb err want_err &&
+  (err ||
+   (ascending (map fst impl)
+    && forallb (fun e => existsb (fun n => match pair_of m n with
+                                           | Some (cf, Some c) => beq cf (fst e) && cert_eqb c (snd e)
+                                           | _ => false
+                                           end) names) impl
+    && forallb (fun n => match pair_of m n with
+                         | Some (cf, _) => existsb (fun e => beq (fst e) cf) impl
+                         | None => true
+                         end) names)).
+Definition file_eqb (a b : str * cert) : bool := beq (fst a) (fst b) && cert_eqb (snd a) (snd b).
 
 Inductive case :=
 (* getCertificate on a store built from [certs] (nil_index: NameToCertificate left nil) *)
 | CPick (certs : list cert) (nil_index : bool) (sn : str) (strict : bool) (impl : pick)
-(* the real watch loop on a scripted loader: the observed trace *)
-| CWatch (once : bool) (script : list load) (impl : list event)
-(* handshakes against the real TLSConfig while sets are replaced: for one handshake, the
-   two sets that were being alternated and the certificate index it was given *)
-| CHandshake (setA setB : list cert) (sn : str) (strict : bool) (from_b : bool) (impl : pick).
+(* the real watch loop on a history of loads, feeding the real TLSConfig (channel, updater
+   goroutine, Store): the observed trace (None for a real directory behind PathSource, where
+   the loads cannot be observed) and a handshake after every iteration / directory state *)
+| CWatch (once : bool) (script : list load) (sn : str) (strict : bool)
+         (trace : option (list event)) (picks : list pick)
+(* handshakes against the real TLSConfig while sets are replaced concurrently: for one
+   handshake, the two sets that were being alternated and the certificate it was given *)
+| CHandshake (setA setB : list cert) (sn : str) (strict : bool) (from_b : bool) (impl : pick)
+(* sets sent one after the other through the real TLSConfig, a handshake after each *)
+| CFresh (sets : list certset) (sn : str) (strict : bool) (impl : list pick)
+(* a schedule of SetCertificates / store load / getCertificate-on-the-loaded-value steps
+   replayed on the real Store *)
+| CSched (sched : list faction) (impl : list pick)
+(* loadCertificates on a map (keys in the shuffled order given): the certificates returned,
+   each with the file the harness made it from, and whether an error was returned *)
+| CLoad (m : blocks) (impl : list (str * cert)) (impl_err : bool).
+
+Definition unusable_b (l : load) : bool := match usable l with None => true | Some _ => false end.
 
 Definition check_case (c : case) : N :=
   match c with
   | CPick certs nil_index sn strict impl =>
       let m := get_certificate certs (if nil_index then None else Some (build_index certs)) sn strict in
       let same := pick_eqb impl m in
+      let spec := if nil_index
+                  then pick_eqb impl (match certs with [] => PErrNoCerts | _ => PCert 0 end)
+                  else pick_ok certs sn strict impl in
       let shortcut := negb strict && (Nat.eqb (length certs) 1 || nil_index) in
-      let spec := if shortcut then pick_eqb impl (match certs with [] => PErrNoCerts | _ => PCert 0 end)
-                  else pick_eqb impl (ref_pick certs sn strict) in
-      let region := None in
       let nontriv := negb shortcut && match m with PCert (S _) => true | PNone => true | _ => Nat.ltb 2 (length certs) end in
-      verdict same spec region nontriv
-  | CWatch once script impl =>
-      let m := watch_run watch_step once None script in
-      let same := list_eqb event_eqb impl m in
-      let spec := no_adjacent_loads impl
-                  && list_eqb N.eqb (pubs impl) (if once then firstn 1 (published None script) else published None script) in
-      verdict same spec None (existsb (fun l => match l with Blocks _ None => true | _ => false end) script)
+      verdict same spec None nontriv
+  | CWatch once script sn strict trace picks =>
+      let mtrace := watch_run watch_step once None script in
+      let mpicks := run_store [] (e2e_actions watch_step once None script sn strict) in
+      let hist := if once then upto_first_good script else script in
+      let same := match trace with Some tr => list_eqb event_eqb tr mtrace | None => true end
+                  && list_eqb pick_eqb picks mpicks in
+      let spec := match trace with
+                  | Some tr => no_adjacent_loads tr && list_eqb certset_eqb (pubs tr) (published None hist)
+                  | None => true
+                  end
+                  && all2 (fun k p => pick_ok (last_good [] (firstn (S k) hist)) sn strict p)
+                          (seq 0 (length hist)) picks in
+      verdict same spec None (existsb unusable_b script)
   | CHandshake a b sn strict from_b impl =>
       let ra := store_pick a sn strict in
       let rb := store_pick b sn strict in
-      let ok := match impl with
-                | PCert _ => if from_b then pick_eqb impl rb else pick_eqb impl ra
-                | _ => pick_eqb impl ra || pick_eqb impl rb
-                end in
-      verdict ok ok None (negb (pick_eqb ra rb))
+      let same := match impl with
+                  | PCert _ => if from_b then pick_eqb impl rb else pick_eqb impl ra
+                  | _ => pick_eqb impl ra || pick_eqb impl rb
+                  end in
+      let spec := match impl with
+                  | PCert _ => if from_b then pick_ok b sn strict impl else pick_ok a sn strict impl
+                  | _ => pick_ok a sn strict impl || pick_ok b sn strict impl
+                  end in
+      verdict same spec None (negb (pick_eqb ra rb))
+  | CFresh sets sn strict impl =>
+      let m := run_store [] (flat_map (fun s => [APublish s; AHandshake sn strict]) sets) in
+      let same := list_eqb pick_eqb impl m in
+      let spec := all2 (fun s p => pick_ok s sn strict p) sets impl in
+      let nontriv := match m with p :: r => existsb (fun q => negb (pick_eqb p q)) r | [] => false end in
+      verdict same spec None nontriv
+  | CSched sched impl =>
+      let m := run_fine mk_built fstate0 sched in
+      let same := list_eqb pick_eqb impl m in
+      let spec := all2 (fun x p => match x with (c, n, s) => pick_ok c n s p end) (abs_sets astate0 sched) impl in
+      let nontriv := match m with p :: r => existsb (fun q => negb (pick_eqb p q)) r | [] => false end in
+      verdict same spec None nontriv
+  | CLoad m impl impl_err =>
+      let '(mf, me) := load_files m in
+      let same := Bool.eqb impl_err me && list_eqb file_eqb impl mf in
+      verdict same (load_spec m impl impl_err) None (Nat.ltb 1 (length mf) || me)
   end.
